@@ -117,7 +117,7 @@ def plain_replay(path):
     return p.returncode, info
 
 
-def cmd_check(prop, tier, only=None, verbose=True):
+def cmd_check(prop, tier, only=None, verbose=True, match=None):
     t0 = time.time()
     seed = int(os.environ.get("VERIF_SEED", "0") or 0)
     subprocess.run([os.path.join(HERE, "setup.sh")], check=True, cwd=HERE, stdout=subprocess.DEVNULL)
@@ -166,6 +166,8 @@ def cmd_check(prop, tier, only=None, verbose=True):
     jobs = []
     for h in harnesses:
         shards = h.shards(tier)
+        if match:
+            shards = [sh for sh in shards if all(sh.get(k) == v for k, v in match.items())]
         rnd = random.Random(seed)
         batch = max(1, int(getattr(h, "batch", 1)))
         order = list(shards)
@@ -366,12 +368,13 @@ def main():
     c.add_argument("prop")
     c.add_argument("--tier", default=os.environ.get("VERIF_TIER", "quick"), choices=["quick", "thorough"])
     c.add_argument("--only", action="append")
+    c.add_argument("--match", help="JSON object: run only shards whose parameters contain it (development aid; evidence then covers a subset)")
     r = sub.add_parser("replay")
     r.add_argument("path")
     sub.add_parser("selftest")
     a = ap.parse_args()
     if a.cmd == "check":
-        sys.exit(cmd_check(a.prop, a.tier, a.only))
+        sys.exit(cmd_check(a.prop, a.tier, a.only, match=json.loads(a.match) if a.match else None))
     if a.cmd == "replay":
         sys.exit(cmd_replay(a.path))
     if a.cmd == "selftest":
